@@ -64,7 +64,7 @@ func startServer(c *vf.Ctx, worker int) (*proc.Server, error) {
 	if err := s.Start(); err != nil {
 		return nil, fmt.Errorf("start: %v", err)
 	}
-	if err := s.WaitReady(120 * time.Second); err != nil {
+	if err := s.WaitReady(180 * time.Second); err != nil {
 		s.Kill()
 		return nil, err
 	}
@@ -88,6 +88,7 @@ func generate(c *vf.Ctx) []*Batch {
 	rr := map[string]int{}
 	mixedSeq := 0
 	var out []*Batch
+	noMissingMeas := false
 	mk := func(kind string, nValid, nInvalid, nMaybe, nRestricted int, parserOnly bool) {
 		strict := 0
 		if kind == "pure" {
@@ -96,7 +97,7 @@ func generate(c *vf.Ctx) []*Batch {
 			strict = 1
 		}
 		n := len(out)
-		g := &gen{r: c.Rand(uint64(n) + 1), seed: c.Seed, batch: n, rr: rr, measShare: c.Pick(1, 3), parserOnly: parserOnly}
+		g := &gen{r: c.Rand(uint64(n) + 1), seed: c.Seed, batch: n, rr: rr, measShare: c.Pick(1, 3), parserOnly: parserOnly, noMissingMeas: noMissingMeas}
 		// two requests (one that must be accepted, one mixed) are larger than one read block
 		g.longStrings = kind == "pure" && n == 3 || kind == "mixed" && mixedSeq == 4
 		g.meas = fmt.Sprintf("c06b%04d", n)
@@ -155,7 +156,9 @@ func generate(c *vf.Ctx) []*Batch {
 		case 1: // plus lexically unusual numbers
 			mk("mixed", mixedValid, mixedInvalid, 2*mixedMaybe, 0, true)
 		case 2: // plus lines that a later stage refuses (time out of range)
+			noMissingMeas = true
 			mk("mixed", mixedValid, mixedInvalid, 0, 0, false)
+			noMissingMeas = false
 		default: // plus lines that openGemini documents as unsupported
 			mk("mixed", mixedValid, mixedInvalid, 2*mixedMaybe, 4*mixedMaybe, false)
 		}
@@ -310,6 +313,12 @@ func run(c *vf.Ctx, s *proc.Server, batches []*Batch) {
 				only[ln.ID] = true
 			}
 			v := r.evaluate(b, only, false)
+			// idle for more than 10 s already; a few more looks cost nothing and keep a
+			// starved machine from turning lag into a verdict
+			for try := 0; try < 5 && v != nil && len(v.missing) > 0; try++ {
+				time.Sleep(4 * time.Second)
+				v = r.evaluate(b, only, false)
+			}
 			if v == nil {
 				continue
 			}
